@@ -114,6 +114,7 @@ class Check:
                 return False
         self._vcount += 1
         path = None
+        doc = None
         if len(self.violations) < 20:
             os.makedirs(REPLAY_DIR, exist_ok=True)
             h = hashlib.sha256(json.dumps(replay, sort_keys=True, default=str).encode()).hexdigest()[:10]
@@ -122,8 +123,39 @@ class Check:
             doc.update(replay)
             with open(path, "w") as f:
                 json.dump(doc, f, indent=1, default=str)
-        self.violations.append({"clause": clause, "attrs": attrs, "what": what, "replay": path})
+        self.violations.append({"clause": clause, "attrs": attrs, "what": what, "replay": path,
+                                "doc": doc if path else None})
         return True
+
+    def minimise_violations(self, orch, mod=None, limit=3, max_evals=40):
+        """greedy minimisation (simkit/minimise.py) of the first few unlisted pipeline-level violations, one per
+        (clause, attrs) group; the replay file is rewritten with the minimised document"""
+        from . import minimise, replay
+        done = set()
+        n = 0
+        for v in self.violations:
+            doc = v.get("doc")
+            if not doc or doc.get("oracle") not in ("golden_equality", "self"):
+                continue
+            g = (v["clause"], json.dumps(v["attrs"], sort_keys=True))
+            if g in done or n >= limit or self.time_left() < 30:
+                continue
+            done.add(g)
+            n += 1
+            try:
+                relocate = getattr(mod, "relocate", None)
+                small, info = minimise.minimise(doc, orch, replay.evaluate, relocate=relocate, max_evals=max_evals)
+                small = dict(small)
+                small["minimisation"] = info
+                if info.get("minimised"):
+                    r = replay.evaluate(small, orch)
+                    small.setdefault("expected", {})
+                    small["expected"] = dict(small["expected"] or {}, trace_sha256=r.get("trace_sha"), sig=r.get("sig"))
+                with open(v["replay"], "w") as f:
+                    json.dump(small, f, indent=1, default=str)
+                v["minimisation"] = info
+            except Exception as e:
+                v["minimisation"] = {"error": repr(e)}
 
     # ---- finish
     def finish(self, coverage_extra=None):
